@@ -947,7 +947,7 @@ def get_input_string(
         inp = files[possible_inputs[0]]
 
         # Somehow, spurious newlines appear when reading files...
-        inp = inp[:-1] if inp[-1] == "\n" else inp
+        inp = inp[:-1] if inp.endswith("\n") else inp
 
     def solver():
         return ISLaSolver(grammar, constraint)
@@ -957,8 +957,8 @@ def get_input_string(
 
     return (
         safe(lambda: json.loads(inp))()
-        .map(DerivationTree.from_parse_tree)
-        .map(lambda tree: eassert(tree, graph().tree_is_valid(tree)))
+        .bind(safe(DerivationTree.from_parse_tree))
+        .bind(safe(lambda tree: eassert(tree, graph().tree_is_valid(tree))))
         .lash(lambda _: safe(lambda: solver().parse(inp, skip_check=True))())
     )
 
